@@ -675,7 +675,60 @@ def rule_request(ctx):
                       for x in subterms(res_t))
             if not okq:
                 probs.append("resource is not <path>?<query>")
+        if not probs and splitter == "urlsplit":
+            # the term is in the evaluable subset (constants, the splitter's attributes, phi / and / or / comparisons, concatenation):
+            # decide it on a grid of (path, query) values -- an empty path must come out as '/', with and without a query
+            for pth in ("", "/", "/a/b", "/p%20q"):
+                for qry in ("", "k=v", "a=1&b=2"):
+                    want = (pth if pth != "" else "/") + ("?" + qry if qry != "" else "")
+                    for r in rets:
+                        got = _eval_str_term(r[1 + pos["resource"]], {attr("path"): pth, attr("query"): qry})
+                        if got is not _UNKNOWN and got != want:
+                            probs.append(f"path {pth!r}, query {qry!r}: the resource is {got!r}, expected {want!r}")
         ctx.ob("parse_url: the resource is the URL's path and query as written (not decoded, not re-encoded), '/' for an empty path", not probs, "; ".join(sorted(set(probs))[:2]), pu.loc())
+
+
+_UNKNOWN = object()
+
+
+def _eval_str_term(t, env):
+    """Value of a (string-valued) term given concrete values for its leaves; _UNKNOWN for anything outside the small subset."""
+    if t in env:
+        return env[t]
+    k = t[0]
+    if k == "c":
+        return t[1]
+    if k == "phi":
+        c = _eval_str_term(t[1], env)
+        return _UNKNOWN if c is _UNKNOWN else _eval_str_term(t[2] if c else t[3], env)
+    if k == "op" and t[1] in ("and", "or"):
+        a = _eval_str_term(t[2], env)
+        if a is _UNKNOWN:
+            return _UNKNOWN
+        if t[1] == "and":
+            return _eval_str_term(t[3], env) if a else a
+        return a if a else _eval_str_term(t[3], env)
+    if k == "un" and t[1] == "not":
+        a = _eval_str_term(t[2], env)
+        return _UNKNOWN if a is _UNKNOWN else (not a)
+    if k == "cmp" and t[1] in ("is", "is not", "==", "!="):
+        a, b = _eval_str_term(t[2], env), _eval_str_term(t[3], env)
+        if a is _UNKNOWN or b is _UNKNOWN:
+            return _UNKNOWN
+        if t[1] in ("is", "is not"):
+            if a is not None and b is not None:
+                return _UNKNOWN
+            return (a is b) if t[1] == "is" else (a is not b)
+        return (a == b) if t[1] == "==" else (a != b)
+    if k == "fmt" and len(t) == 3 and t[2] == "":
+        a = _eval_str_term(t[1], env)
+        return _UNKNOWN if a is _UNKNOWN else format(a, "")
+    if k == "cat":
+        parts = [_eval_str_term(x, env) for x in t[1:]]
+        if any(x is _UNKNOWN or not isinstance(x, str) for x in parts):
+            return _UNKNOWN
+        return "".join(parts)
+    return _UNKNOWN
 
 
 def rule_escape(ctx):
